@@ -56,6 +56,16 @@ func (k Kind) StreamDesc() *grpc.StreamDesc {
 // recvAllLimit bounds "receive until the end" loops (scripts never send that many).
 const recvAllLimit = 2000
 
+// statusOverCtx carries its own status and unwraps to a context error: the status is what counts.
+type statusOverCtx struct {
+	st    *status.Status
+	cause error
+}
+
+func (e statusOverCtx) Error() string              { return e.st.Err().Error() + ": " + e.cause.Error() }
+func (e statusOverCtx) GRPCStatus() *status.Status { return e.st }
+func (e statusOverCtx) Unwrap() error              { return e.cause }
+
 // okCodedError is an error whose gRPC status carries code OK (only possible with a custom type).
 type okCodedError struct{ msg string }
 
@@ -94,6 +104,8 @@ func (r Ret) Err(ctx context.Context) error {
 		return context.DeadlineExceeded
 	case "okcoded":
 		return okCodedError{r.Msg}
+	case "status-over-ctx": // an error with a status of its own whose cause happens to be a context error
+		return statusOverCtx{status.New(codes.Code(r.Code), r.Msg), context.DeadlineExceeded}
 	case "wrapped-canceled": // what a handler gets back from a downstream call that was given its context
 		return fmt.Errorf("downstream call: %w", context.Canceled)
 	case "wrapped-deadline":
